@@ -258,6 +258,45 @@ def run(ctx):
             if bad:
                 viol.append({"property": PID, "kind": "requests-on-represented-entries-change-later-results", "case_a": al, "case": bl,
                              "what": bad, "sig": "represented"})
+        # ---------------------------------------------------------------- 2c. deferred links: after everything else, longest path first
+        # several dangerous links of different path lengths, each extracted under its own name or under a caller-supplied
+        # one (short or long): the links the reader re-presents at the end must come in non-increasing length of their
+        # ARCHIVE path, whatever names the caller extracted them to
+        dlines = []
+        for _ in range(60 if ctx.quick else 1500):
+            k = rnd.choice([2, 3, 4])
+            names = rnd.sample([b"l", b"ln", b"lnk", b"d/e/link", b"linkdir/longname", b"a/b", b"zzzzzzzzzzzz", b"d/x", b"q"], k)
+            ms = [T.link_member(rnd, nm, rnd.choice(T.TARGETS_DANGER), rnd.choice([1, 2, 3])) for nm in names]
+            if rnd.random() < 0.5:
+                ms.insert(rnd.randrange(len(ms) + 1), T.file_member(rnd, pool.small(rnd), b"f.txt", 2))
+            ops = []
+            for _m in ms:
+                r = rnd.random()
+                ops += ["n", "x" if r < 0.45 else "xf" + T.hx(rnd.choice([b"s", b"out/a-much-longer-output-name", b"zz", b"d/zz", b"x" * 30]))]
+            ops += ["n"] * (k + 2)
+            dlines.append(T.case(rnd.choice(T.KINDS), rnd.choice(["eod", "eof", "plain"]), T.archive(ms), ops))
+        if mode != "chroot":
+            dlines = [l for l in dlines if T.plain_ok(l)]
+        dco = common.run_lines_parallel([drv], dlines)
+        dmo = common.run_lines_parallel([model], dlines)
+        for l, c, m in zip(dlines, dco, dmo):
+            dist["deferred-order"] += 1
+            if "CHILD-FAILED" in c or "|" not in c:
+                viol.append({"property": PID, "kind": "reader-abnormal-termination", "case": l, "observed": c[-600:], "sig": "crash"})
+                continue
+            lens = []
+            seen_real_after = False
+            for op, r in zip(l.split()[5].split(","), parts_of(c)):
+                if op == "n" and r.startswith("n:H"):
+                    if T.hfield(r, "fake") == "1" and T.hfield(r, "st") != "NULL":
+                        lens.append(len(T.hstr(T.hfield(r, "p")) or b"") + len(T.hstr(T.hfield(r, "fn")) or b""))
+                    elif lens:
+                        seen_real_after = True
+            if any(a < b for a, b in zip(lens, lens[1:])) or seen_real_after:
+                viol.append({"property": PID, "kind": "deferred-links-not-longest-first-or-not-last", "case": l, "path_lengths": lens,
+                             "sig": "deferred-order"})
+            elif c != m and not (m.endswith("FAULT 1411") or m.endswith("FAULT 1414")):
+                mism.append({"case": l[:6000], "c": c[:1500], "model": m[:1500]})
         # ---------------------------------------------------------------- 3. two readers, interleaved and on two threads
         two, ref = [], []
         n_two = 150 if ctx.quick else 3000
@@ -296,7 +335,7 @@ def run(ctx):
                 if o.strip() != exp.strip():
                     viol.append({"property": PID, "kind": "two-readers-%s-differ-from-separate-runs" % kind, "case": l,
                                  "expected": exp[:1500], "observed": o[:1500], "sig": "two-readers"})
-        cov = {"evaluations": len(lines) + len(mlines) + len(alines) + len(blines) + 2 * n_two + len(ref), "distinct_nontrivial": nontriv,
+        cov = {"evaluations": len(lines) + len(mlines) + len(alines) + len(blines) + len(dlines) + 2 * n_two + len(ref), "distinct_nontrivial": nontriv,
                "rule": "1. correspondence: every op sequence over {n, r5, r100000, c, x} up to length %d that respects the protocol "
                        "(%d of them) x 12 small archives x 3 directory policies x stream kinds in rotation (%d cases) and random "
                        "protocol-respecting sequences over generated archives (nested directories, safe/dangerous links, MacBinary "
@@ -306,7 +345,7 @@ def run(ctx):
                        "header sequence, same full-read result, same check verdict per member; after the end every request "
                        "reports end.  2b. extract-everything runs, repeated with reads/checks added on every entry the reader "
                        "re-presents (fake directory, deferred link) and after the end: those requests return 0, every other result "
-                       "and the extracted tree are unchanged.  3. two readers: interleaved by a random schedule in one thread and concurrently on two "
+                       "and the extracted tree are unchanged.  2c. archives with 2-4 dangerous links of different path lengths, each extracted under its own or a caller-supplied name: the re-presented links come after everything else in non-increasing ARCHIVE path length (direct oracle on the C) and as the model says.  3. two readers: interleaved by a random schedule in one thread and concurrently on two "
                        "threads (ThreadSanitizer build; a data race report is a failure) = the two separate runs.  non-trivial "
                        "= archive with at least two entries in the metamorphic family" % (3 if ctx.quick else 4, len(seqs), n_ex),
                "distribution": dict(dist), "samples": [lines[0][:300], mlines[0][:300] if mlines else "", two[0][1][:300]]}
